@@ -638,6 +638,11 @@ func execRegistry(ops []string) []string {
 				res = errObs(t.Start())
 			case "stop":
 				res = errObs(t.Stop())
+				// Wait for Stopped: a Start that arrives while the torrent is still Stopping is dropped by
+				// the event loop (lifecycle property C04), which would make the started flag timing-dependent.
+				for i := 0; i < 600 && t.Stats().Status != torrent.Stopped; i++ {
+					time.Sleep(5 * time.Millisecond)
+				}
 			case "addtracker":
 				if err := t.AddTracker(tokURL(m["url"])); err != nil {
 					res = "err:tracker"
